@@ -87,6 +87,12 @@ class NoneObject:
     def __len__(self):
         return 0
 
+    def __getattr__(self, name):
+        # An attribute of a field the record does not have is missing as well (`r.ts.year == 2020` on a record without `ts`)
+        if name.startswith("__"):
+            raise AttributeError(name)
+        return self
+
 
 NONE_OBJECT = NoneObject()
 
